@@ -583,6 +583,14 @@ impl Sys {
                     }
                 }
             }
+            // which file names are "compressed" for each codec
+            for (name, lz10, lz13) in [("a.cmp", true, false), ("a.cms", true, false), ("a.lz", false, true), ("dir/GameData.bin.lz", false, true), ("dir/x.bin.cmp", true, false), ("a.bin", false, false), ("a", false, false), ("", false, false), ("a.lz.bin", false, false), ("a.cmp.txt", false, false)] {
+                let g10 = mila::CompressionFormat::LZ10(mila::LZ10CompressionFormat {}).is_compressed_filename(name);
+                let g13 = mila::CompressionFormat::LZ13(mila::LZ13CompressionFormat {}).is_compressed_filename(name);
+                if g10 != lz10 || g13 != lz13 {
+                    out.push(("typed:is_compressed_filename".into(), format!("is_compressed_filename({:?}) = LZ10 {} / LZ13 {}, expected {} / {}", name, g10, g13, lz10, lz13)));
+                }
+            }
             // configuration getters: the game's localizer, the language, the endianness, the top layer
             for p in ["d/a", "m", "x/y/z.bin"] {
                 let got = w.fs.localizer().localize(p, &w.fs.language()).map_err(|e| e.to_string());
@@ -1105,7 +1113,9 @@ fn scale_script(sys: &Sys, o: &mut Outcome) -> u64 {
         let sfx = sys.cfg.sfx();
         for n in [255usize, 256, 65_535, 65_536, 70_001] {
             for (kind, payload) in [("compressible", (0..n).map(|i| (i % 7) as u8).collect::<Vec<u8>>()), ("incompressible", crate::lzfam::norepeat(n.min(70_001), n as u32))] {
-                for (p, loc) in [(format!("big/x{}{}", n, sfx), false), (format!("big/y{}{}", n, sfx), true), (format!("big/z{}.bin", n), false)] {
+                // FE9/FE10 have a second compressed suffix (.cms)
+                let sfx2 = if sfx == ".cmp" { ".cms" } else { sfx };
+                for (p, loc) in [(format!("big/x{}{}", n, sfx), false), (format!("big/y{}{}", n, sfx), true), (format!("big/z{}.bin", n), false), (format!("big/w{}{}", n, sfx2), true)] {
                     match w.fs.write(&p, &payload, loc) {
                         Err(e) => out.push(("scale:write-failed".to_string(), format!("write({:?}, {} {} bytes, localized={}) failed: {}", p, n, kind, loc, e))),
                         Ok(()) => match w.fs.read(&p, loc) {
